@@ -7,7 +7,8 @@
    naming known or unknown users and channels.  A Go panic (nil map entry dereference,
    index out of range) is the explicit result `Panic`.  `Inv` is the structural
    consistency statement of the property (C05_inv_meaning spells it out). *)
-Require Import Bytes AMap Names State OrderLemmas StateInv StateHandlers.
+Require Import Bytes AMap Names State OrderLemmas StateInv StateHandlers ClientStep ClientStepProofs.
+Require Ctcp Sasl Cap StsState.
 
 (* Inv is exactly the property's consistency clause *)
 Theorem C05_inv_meaning : forall s, Inv s <->
@@ -64,3 +65,27 @@ Theorem C05_populated_example : exists s o, run ex_cfg state_init ex_history = O
     [(bs "bob", bs "BOB", [bs "#chan"; bs "#c{1}"]); (bs "me", bs "me", [bs "#chan"; bs "#c{1}"])].
 Proof. exact populated_state_inv. Qed.
 Print Assumptions C05_populated_example.
+
+(* ---- widened: everything a received line reaches that could panic ----
+   client_step (Model/ClientStep.v) = the tracked-state handlers, then handleSASL /
+   handleSASLError, handleCAP and the CTCP stage of RunHandlers with the default
+   repliers (the models of C09, C08 and C14, used unchanged).  The one hypothesis:
+   Client.conn is non-nil while the event is handled (see C05_finger_after_disconnect). *)
+Theorem C05_client_no_panic : forall cfg cs e, Inv (cs_state cs) -> Ctcp.connected (cc_env cfg) = true ->
+  client_step cfg cs e <> Panic.
+Proof. exact client_step_no_panic. Qed.
+Print Assumptions C05_client_no_panic.
+
+Theorem C05_client_all_histories : forall cfg sts h, Ctcp.connected (cc_env cfg) = true ->
+  exists cs out, client_run cfg (client_init sts) h = Ok (cs, out) /\ Inv (cs_state cs).
+Proof. exact client_all_histories. Qed.
+Print Assumptions C05_client_all_histories.
+
+(* The hypothesis cannot be dropped: the default FINGER replier runs in a goroutine of its
+   own and dereferences Client.conn, which Connect sets to nil when it returns; a request
+   still in flight when the connection ends panics outside every recover (finding, see
+   notes/design/C05.md). *)
+Theorem C05_finger_after_disconnect : forall cfg cs, Ctcp.connected (cc_env cfg) = false ->
+  Inv (cs_state cs) -> client_step cfg cs finger_request = Panic.
+Proof. exact finger_after_disconnect_panics. Qed.
+Print Assumptions C05_finger_after_disconnect.
